@@ -156,7 +156,14 @@ def run(res: C.Result):
             om = [fx(x) for x in r["omega_solve"]]
             mm = "[" + "; ".join(C.rlit(m) for m in ms) + "]"
             xs, ps = vlist(c["positions"]), vlist(c["momenta"])
-            rel = f"(rel_com {mm} {xs})"
+            # the centre of mass is compared with the model once; the (exact rational) relative positions w.r.t. the implementation's
+            # centre of mass are then used as literals, which keeps the inertia-tensor terms small
+            comi = [fx(x) for x in r["com"]]
+            for comp, acc in enumerate(("vx", "vy", "vz")):
+                coq.append(f"close_case {len(meta)}%nat ({acc} (com {mm} {xs})) {C.rlit(comi[comp])} {C.rlit(1e-12 * (1 + abs(comi[comp])))}.")
+                meta.append((k, "fixrot-com", comp))
+            from fractions import Fraction as Fr
+            rel = vlist([[Fr(x) - Fr(cc) for x, cc in zip(row, comi)] for row in c["positions"]])
             pa = np.array([fx(x) for x in r["p_after"]]).reshape(n, 3)
             pscale = float(np.max(np.abs(c["momenta"]))) + 1.0
             for comp, acc in enumerate(("vx", "vy", "vz")):
